@@ -1,15 +1,15 @@
 (* C08 — labels reach metadata, selectors and templates consistently.
    Property theorems only; every theorem is closed by [exact] of a lemma proved in
-   Res/LabelsProofs.v (generic field-spec lists), Res/LabelsGen.v (the GENERATED default tables) or
-   Res/LabelsAlias.v (node sharing).
+   Res/LabelsProofs.v (generic field-spec lists), Res/LabelsGen.v (the GENERATED default tables),
+   Res/LabelsChain.v (whole chains) or Res/LabelsTree.v (whole trees).
 
    Vocabulary (Res/Labels.v): [label_filter nonstr L fss x] = labels.Filter / annotations.Filter with
    labels L and field specs fss on document x; [label_fs tc e] = the field specs the LabelTransformer of
    one `labels` entry is configured with; [sel_of] / [pod_labels_of] = the matchLabels selector / pod
    labels Kubernetes reads for the object's kind; [selects s w] = every requirement of s's selector is met
-   by w's pod labels; [apply_chain_al] = a resource through the directives of its layer chain with the
-   node sharing of the implementation. [nonstr] is the go-yaml resolution oracle (any function). *)
-From KV Require Import Res.Labels Res.LabelsProofs Res.LabelsGen Res.LabelsAlias Res.LabelsTree Res.LabelsChain.
+   by w's pod labels; [apply_chain] = a resource through the directives of its layer chain, innermost first
+   (no two locations share a yaml.Node since /repo f5952a1, so this is exact for whole builds). [nonstr] is the go-yaml resolution oracle (any function). *)
+From KV Require Import Res.Labels Res.LabelsProofs Res.LabelsGen Res.LabelsTree Res.LabelsChain.
 
 (* ------------------------------------------------------------------------------------------- *)
 (* Obligations on the generated tables (vm_compute on Gen/FieldSpecs.v: editing a row in
@@ -125,7 +125,7 @@ Print Assumptions C08_own_selector_fields_refuted.
    selecting kind and workload kind, under: the workload is covered by a create=true template row
    (Gen_canonical_covered: true for current apiVersions), shape as above, and - only if NO selector row
    matches s's apiVersion - no key overrides a requirement of s. Missing: labels without
-   includeSelectors (refuted below) and chains in which a key repeats (node sharing, see the end). *)
+   includeSelectors (refuted below). *)
 Theorem C08_selects_preserved_partial :
   forall (nonstr : string -> bool) (L : pairs) (s w s' w' : node) (sp tp : string),
     sel_path_of s = Some sp -> tmpl_path_of w = Some tp ->
@@ -223,68 +223,56 @@ Proof. exact lookup_upd_all. Qed.
 Print Assumptions C08_union_lookup.
 
 (* ------------------------------------------------------------------------------------------- *)
-(* Chains of directives: node sharing                                                           *)
+(* Chains of directives and whole trees (default tables, no custom fields)                      *)
 (* ------------------------------------------------------------------------------------------- *)
 
-(* "Labels declared without includeSelectors never alter a selector" is FALSE for chains: the entries
-   created by one SetEntry pass share one yaml.Node, a later metadata-only entry overwrites them all. *)
-Theorem C08_no_selector_change_chain_refuted :
-  exists (d1 d2 : dirs) (x : node) (st1 st2 : rstate),
-    d2 = mkDirs [mkLD [("app", "b")] false false []] [] [] /\
-    apply_chain_al nq default_tc [d1] (x, []) = Ok st1 /\
-    apply_chain_al nq default_tc [d2] st1 = Ok st2 /\
-    sel_of (fst st2) <> sel_of (fst st1).
-Proof. exact no_selector_change_chain_refuted. Qed.
-Print Assumptions C08_no_selector_change_chain_refuted.
+(* How the selector of ANY selecting object (8 workload kinds, Service, NetworkPolicy, PDB) evolves along a
+   chain of any length: every key keeps its value (or absence) or takes a value written by commonLabels or
+   by a labels entry with includeSelectors of the chain. *)
+Theorem C08_selector_evolution :
+  forall (nonstr : string -> bool) (ds : list dirs) (x x' : node) (sp : string),
+    (forall d, In d ds -> dir_ok d) -> sel_path_of x = Some sp ->
+    apply_chain nonstr default_tc ds x = Ok x' ->
+    sel_path_of x' = Some sp /\ ev (chain_sel_pairs ds) (sel_of x) (sel_of x').
+Proof. exact selector_evolution. Qed.
+Print Assumptions C08_selector_evolution.
 
-(* ... and the same sharing breaks selector/template agreement when the template label pre-existed. *)
-Theorem C08_own_selector_chain_refuted :
-  exists (d1 d2 : dirs) (x : node) (st1 st2 : rstate),
-    d1 = mkDirs [] [("env", "x")] [] /\ d2 = mkDirs [mkLD [("env", "y")] false false []] [] [] /\
-    selects x x /\
-    apply_chain_al nq default_tc [d1] (x, []) = Ok st1 /\ selects (fst st1) (fst st1) /\
-    apply_chain_al nq default_tc [d2] st1 = Ok st2 /\ ~ selects (fst st2) (fst st2).
-Proof. exact own_selector_chain_refuted. Qed.
-Print Assumptions C08_own_selector_chain_refuted.
+(* "Labels declared without includeSelectors never alter a selector", for whole chains: a key that no
+   commonLabels and no includeSelectors entry of the chain sets is untouched in every selector - however
+   many entries without includeSelectors (with or without includeTemplates) and commonAnnotations set it. *)
+Theorem C08_no_selector_change_chain :
+  forall (nonstr : string -> bool) (ds : list dirs) (x x' : node) (sp k : string),
+    (forall d, In d ds -> dir_ok d) -> sel_path_of x = Some sp ->
+    apply_chain nonstr default_tc ds x = Ok x' ->
+    ~ In k (map fst (chain_sel_pairs ds)) ->
+    lookup k (sel_of x') = lookup k (sel_of x).
+Proof. exact no_selector_change_chain. Qed.
+Print Assumptions C08_no_selector_change_chain.
 
-(* What does hold for chains: when no label / annotation key occurs twice along the chain, the sharing
-   is unobservable - the chain computes what the copying semantics computes, so the single-run theorems
-   compose run by run. (For any transformer configuration tc, any chain, any sharing classes gs whose
-   keys K are disjoint from the chain's.) *)
-Theorem C08_chain_alias_free_partial :
-  forall (nonstr : string -> bool) (tc : tconfig) (ds : list dirs) (obj : node) (gs : list group)
-         (K : list string) (st' : rstate),
-    covered K gs -> NoDup (chain_keys ds) -> (forall k, In k (chain_keys ds) -> ~ In k K) ->
-    apply_chain_al nonstr tc ds (obj, gs) = Ok st' ->
-    apply_chain nonstr tc ds obj = Ok (fst st').
-Proof. exact chain_alias_free. Qed.
-Print Assumptions C08_chain_alias_free_partial.
-
-(* Whole trees (the function the build correspondence runs): every output resource of [accumulate] is the
-   image of a resource of some layer under the directive chain from that layer up to the root, with sharing. *)
-Theorem C08_build_outputs_are_chain_images :
-  forall (nonstr : string -> bool) (tc : tconfig) (l : layer) (out : list rstate),
-    accumulate nonstr tc l = Ok out ->
-    Forall (fun st' => exists r ch, reaches l r ch /\ apply_chain_al nonstr tc ch (r, []) = Ok st') out.
-Proof. exact build_outputs_are_chain_images. Qed.
-Print Assumptions C08_build_outputs_are_chain_images.
-
-(* Whole chains with the implementation's node sharing (default tables): if no labels entry carries custom
-   fields, no label / annotation key is set twice along the chain, and the keys of the entries without
-   includeSelectors do not override a requirement of the selector, then a workload whose selector matched its
-   pod template still does after the whole chain - any number of layers, commonLabels, labels entries with
-   or without includeSelectors / includeTemplates, commonAnnotations. The two refuted chain theorems above show
-   that the "set twice" hypothesis cannot be dropped on the current code. *)
+(* Selector/template agreement after a whole chain; keys may repeat along the chain. Partial only because of
+   the documented behaviour refuted above (C08_own_selector_templates_refuted): every pair (k,v) of an entry
+   WITHOUT includeSelectors must be compatible with the workload's original selector and agree with every
+   value commonLabels / includeSelectors entries of the chain give k ([good]). *)
 Theorem C08_own_selector_chain_partial :
-  forall (nonstr : string -> bool) (ds : list dirs) (w : node) (st' : rstate) (sp tp : string),
-    (forall d, In d ds -> dir_ok d) -> NoDup (chain_keys ds) ->
-    (forall d, In d ds -> nonsel_compat d w) ->
+  forall (nonstr : string -> bool) (ds : list dirs) (w w' : node) (sp tp : string),
+    (forall d, In d ds -> dir_ok d) ->
+    (forall d, In d ds -> forall e, In e (d_labels d) -> ld_selectors e = false ->
+                          good (sel_of w) (chain_sel_pairs ds) (ld_pairs e)) ->
     assoc3 (obj_kind w) k8s_workloads = Some (Some sp, tp) ->
     is_map w = true -> no_seq_along (path_splitter tp) w = true -> selects w w ->
-    apply_chain_al nonstr default_tc ds (w, []) = Ok st' ->
-    selects (fst st') (fst st').
+    apply_chain nonstr default_tc ds w = Ok w' ->
+    selects w' w'.
 Proof. exact own_selector_chain. Qed.
 Print Assumptions C08_own_selector_chain_partial.
+
+(* Whole trees (the function the build correspondence runs): every output resource of [accumulate] is the
+   image of a resource of some layer under the directive chain from that layer up to the root. *)
+Theorem C08_build_outputs_are_chain_images :
+  forall (nonstr : string -> bool) (tc : tconfig) (l : layer) (out : list node),
+    accumulate nonstr tc l = Ok out ->
+    Forall (fun o => exists r ch, reaches l r ch /\ apply_chain nonstr tc ch r = Ok o) out.
+Proof. exact build_outputs_are_chain_images. Qed.
+Print Assumptions C08_build_outputs_are_chain_images.
 
 (* the annotation rows end neither at a selector nor at the pod labels of any of the 11 kinds *)
 Theorem Gen_annotations_clear : chk_annotations_clear = true.
